@@ -48,20 +48,32 @@ namespace pika {
         long const function_complete_flag_value = 0xc157'30e2;
         long const running_value = 0x7f07'25e3;
 
+#if defined(PIKA_VERIF)
+        PIKA_VERIF_POINT(931, &flag);    // call_once: before the status load (loop head)
+#endif
         while (flag.status_.load(std::memory_order_acquire) != function_complete_flag_value)
         {
             long status = 0;
+#if defined(PIKA_VERIF)
+            PIKA_VERIF_POINT(932, &flag);    // call_once: before the status CAS
+#endif
             if (flag.status_.compare_exchange_strong(status, running_value))
             {
                 try
                 {
                     // reset event to ensure its usability in case the
                     // wrapped function was throwing an exception before
+#if defined(PIKA_VERIF)
+                    PIKA_VERIF_POINT(944, &flag);    // call_once: runner, before event reset
+#endif
                     flag.event_.reset();
 
                     PIKA_INVOKE(std::forward<F>(f), std::forward<Args>(args)...);
 
                     // set status to done, release waiting threads
+#if defined(PIKA_VERIF)
+                    PIKA_VERIF_POINT(934, &flag);    // call_once: before status store(complete)
+#endif
                     flag.status_.store(function_complete_flag_value);
                     flag.event_.set();
                     break;
@@ -87,6 +99,9 @@ namespace pika {
 
             // wait for the function finish executing
             flag.event_.wait();
+#if defined(PIKA_VERIF)
+            PIKA_VERIF_POINT(931, &flag);    // call_once: before the status load (loop head, after waiting)
+#endif
         }
     }
 }    // namespace pika
